@@ -41,6 +41,7 @@ NotSupp(c)    == c \in {SNS, SNSIAS}
      C.respIds  response ids (bit 6 set) were asked for
      C.tp       a cyclic TesterPresent / initial ping is configured (3E 00 then is not a probe)
      C.start    the ECU's session when the scan starts (used when no session list is given)
+     C.reset    0, or the reset level given with --reset (the ECU is reset after every session)
      C.U        the service-id universe (0..255; a small set in model checking)
    Event e = <<t, n, b0, b1, b2, r>>: a request seen BY THE ECU: t ground-truth session before the
    request, n its length, b0.. its first bytes (256 = absent), r the class of the ECU's answer.   *)
@@ -57,7 +58,12 @@ IsDsc(C, e)    == e[3] = 16 /\ e[2] = 2 /\ (e[4] % 128) \in (C.req \cup {1})
 DscTarget(e)   == e[4] % 128
 IsSessRead(e)  == e[2] = 3 /\ e[3] = 34 /\ e[4] = 241 /\ e[5] = 134      \* 22 F1 86
 IsTP(C, e)     == C.tp /\ e[3] = 62 /\ e[2] = 2 /\ e[4] % 128 = 0         \* 3E 00 / 3E 80
-IsProbe(C, e)  == ~IsDsc(C, e) /\ ~IsSessRead(e) /\ ~IsTP(C, e)
+\* --reset <level> ("Reset the ECU after every session"): the requested ECUReset is session management, not a
+\* probe; after a positive answer the ECU is on its way to the default session and the scanner waits for it
+\* (TesterPresent pings) -- until the next accepted session change no session is claimed (cl = -1)
+IsResetReq(C, e) == C.reset # 0 /\ e[3] = 17 /\ e[2] = 2 /\ e[4] % 128 = C.reset
+IsPing(e)        == e[3] = 62 /\ e[2] = 2 /\ e[4] % 128 = 0
+IsProbe(C, e)  == ~IsDsc(C, e) /\ ~IsSessRead(e) /\ ~IsTP(C, e) /\ ~IsResetReq(C, e)
 
 PlIndex(E, n) == {i \in 1..Len(E.pl) : E.pl[i] = n}
 
@@ -70,7 +76,8 @@ Step(C, E, a, e) ==
        [a EXCEPT !.att = @ \cup {DscTarget(e)},
                  !.ent = IF EvR(e) = POS THEN @ \cup {DscTarget(e)} ELSE @,
                  !.cl  = IF EvR(e) = POS THEN DscTarget(e) ELSE @]
-  ELSE IF ~IsProbe(C, e) THEN a
+  ELSE IF IsResetReq(C, e) THEN (IF EvR(e) = POS THEN [a EXCEPT !.cl = -1] ELSE a)
+  ELSE IF ~IsProbe(C, e) \/ (a.cl = -1 /\ IsPing(e)) THEN a
   ELSE [a EXCEPT !.pr    = @ \cup {<<a.cl, EvSid(e)>>},
                  !.wrong = IF C.has /\ (EvT(e) # a.cl \/ a.cl \notin C.req)
                            THEN @ \cup {<<a.cl, EvT(e), EvSid(e)>>} ELSE @,
